@@ -75,8 +75,10 @@ func (pt *ParsedTable) ToMarkdown() string {
 				// A merged-away cell still occupies its columns
 				sb.WriteString(" |")
 			} else {
-				// Replace newlines and pipes within cells
-				text := strings.ReplaceAll(cell.Text, "\n", " ")
+				// Replace line breaks (a bare CR ends a Markdown line too) and pipes within cells
+				text := strings.ReplaceAll(cell.Text, "\r\n", " ")
+				text = strings.ReplaceAll(text, "\n", " ")
+				text = strings.ReplaceAll(text, "\r", " ")
 				text = strings.ReplaceAll(text, "|", "\\|")
 				text = strings.TrimSpace(text)
 				sb.WriteString(" ")
